@@ -70,7 +70,7 @@ from ..term import ESC, decode, tokenize
 ID = "C03"
 LEVEL = "exploration"
 ENGINE = "E1"
-CAP_S = {"quick": 240, "thorough": 1800}
+CAP_S = {"quick": 600, "thorough": 2400}
 
 SYSTEMS = [None, "standard", "256", "truecolor", "windows"]
 LINK = "https://e.x/a?b=c"
@@ -184,12 +184,14 @@ def seg_menu(small=False):
     return menu
 
 
-def configs40():
+def configs40(records=(False, True)):
+    """colour system x no_color x terminal x legacy_windows x record (the console-option product)"""
     for system in SYSTEMS:
         for nc in (False, True):
             for term in (True, False):
                 for legacy in (False, True):
-                    yield (system, nc, term, legacy)
+                    for record in records:
+                        yield (system, nc, term, legacy, record)
 
 
 def configs90():
@@ -197,10 +199,13 @@ def configs90():
         for nc in (False, True, "env"):
             for term in (True, False, None):
                 for legacy in (False, True):
-                    yield (system, nc, term, legacy)
+                    for record in (False, True):
+                        yield (system, nc, term, legacy, record)
 
 
-B_FLAGS = [(False, True, False), (True, True, False), (False, False, False), (False, True, True)]
+# (no_color, terminal, legacy_windows, record) of the second writer
+B_FLAGS = [(False, True, False, False), (True, True, False, False), (False, False, False, False),
+           (False, True, True, False), (False, True, False, True), (True, True, False, True)]
 
 
 def how_options(sd):
@@ -250,14 +255,15 @@ def build_style(sd, how="ctor"):
 
 def make_console(cfg, theme=None):
     from rich.console import Console
-    system, nc, term, legacy = cfg
+    system, nc, term, legacy = cfg[:4]
+    record = bool(cfg[4]) if len(cfg) > 4 else False
     environ = {}
     no_color = nc
     if nc == "env":
         environ = {"NO_COLOR": "1"}
         no_color = None
     return Console(file=io.StringIO(), width=80, height=25, force_terminal=term, color_system=system,
-                   no_color=no_color, legacy_windows=legacy, _environ=environ, theme=theme)
+                   no_color=no_color, legacy_windows=legacy, record=record, _environ=environ, theme=theme)
 
 
 class _Segs:
@@ -318,7 +324,7 @@ def ref_of(sd):
 def visible(ref, cfg):
     """what a terminal must show for RefStyle `ref` (colour fields = spec strings) under cfg"""
     from rich.color import Color
-    system, nc, term, legacy = cfg
+    system, nc, term, legacy = cfg[:4]
     if system is None:
         return NULLVIS
 
@@ -445,7 +451,7 @@ def judge(out, mode, segs, spans, cfg, derive="same"):
 def judge_stream(out, cfg, exp_cells, exp_controls, n_esc_control=0):
     """The oracle proper: `out` reached a target described by cfg; exp_cells = [(char, visible, unstyled source)],
     exp_controls = control tokens a terminal must receive, n_esc_control = ESC bytes inside control segments."""
-    system, nc, term, legacy = cfg
+    system, nc, term, legacy = cfg[:4]
     problems = []
     cells, controls, dec = decode(out)
     toks, _rest = tokenize(out)
@@ -542,7 +548,7 @@ def run_case(mode, segs, spans, hist, cfg, how="ctor", derive="same"):
     any_desc = any(sd is not None for _, sd, _ in segs) or bool(spans)
     n_ctl = sum(1 for _, _, c in segs if c)
     hs = tuple(h if isinstance(h, str) else h[0] for h in hist)
-    sig = (mode, cfg[0], bool(cfg[1]), bool(cfg[2]), cfg[3], hs if len(hs) < 2 else ("steps", len(hs)), derive,
+    sig = (mode, cfg[0], bool(cfg[1]), bool(cfg[2]), cfg[3], len(cfg) > 4 and bool(cfg[4]), hs if len(hs) < 2 else ("steps", len(hs)), derive,
            bool(first[0]), _kind(first[1]), _kind(first[2]), bool(first[3]), n_ctl > 0)
     nontrivial = bool(styled) or n_ctl > 0 or (any_desc and (cfg[0] is None or cfg[1]))
     return problems, sig, nontrivial
@@ -579,8 +585,8 @@ def gen_SH(tier):
         for a in SYSTEMS:
             ha = (a, False, True, False)
             for b in SYSTEMS:
-                for nc, term, legacy in B_FLAGS:
-                    cfg = (b, nc, term, legacy)
+                for nc, term, legacy, record in B_FLAGS:
+                    cfg = (b, nc, term, legacy, record)
                     yield ("seg", _single(sd), None, [ha], cfg, "ctor", "same")
                     yield ("text", _single(sd), None, [ha], cfg, "ctor", "same")
 
@@ -595,7 +601,8 @@ def gen_SH2(tier):
                     yield ("seg", segs, None, [(a1, False, True, False), (a2, False, True, False)],
                            (b, False, True, False), "ctor", "same")
         # first writer had NO_COLOR / was no terminal / was legacy windows
-        for aflags in ((True, True, False), (False, False, False), (False, True, True)):
+        for aflags in ((True, True, False), (False, False, False), (False, True, True), (False, True, False, True),
+                       (True, True, False, True)):
             for a in real:
                 for b in real:
                     yield ("seg", segs, None, [(a,) + aflags], (b, False, True, False), "ctor", "same")
@@ -637,7 +644,7 @@ def gen_Q(tier):
     for seq in _sequences(tier):
         seq = list(seq)
         has_ctl = any(c for _, _, c in seq)
-        for cfg in configs40():
+        for cfg in configs40() if len(seq) <= 2 else configs40(records=(False,)):
             yield ("seg", seq, None, [], cfg, "ctor", "same")
         if len(seq) <= 2:
             for cfg in configs40():
@@ -810,14 +817,14 @@ def run_case_D(case):
                      "-- independently built equal styles are right" % (paths, prep, hash_each, mode, d))
                     for k, d in problems]
     vis = [v for _, v, _ in exp_cells[:-1]]
-    sig = ("D", mode, cfg[0], bool(cfg[1]), cfg[3], prep, hash_each, len(paths), max(len(p) for p in paths),
+    sig = ("D", mode, cfg[0], bool(cfg[1]), cfg[3], len(cfg) > 4 and bool(cfg[4]), prep, hash_each, len(paths), max(len(p) for p in paths),
            len(set(vis)), len({v[3] for v in vis}))
     return problems, sig, len(set(vis)) > 1 or any(v != NULLVIS for v in vis)
 
 
 def gen_D(tier):
-    cfgs = [(sy, nc, True, legacy) for sy in (None, "standard", "truecolor") for nc in (False, True)
-            for legacy in (False, True)]
+    cfgs = [(sy, nc, True, legacy, record) for record in (False, True) for sy in (None, "standard", "truecolor")
+            for nc in (False, True) for legacy in (False, True)]
     p1 = list(_d_paths(1))
     combos = [list(c) for c in itertools.product(p1, repeat=2)]
     preps_long = D_PREPS
@@ -829,7 +836,7 @@ def gen_D(tier):
             for hash_each in (False, True):
                 for paths in combos:
                     for mode in ("seg", "spans"):
-                        for cfg in cfgs:
+                        for cfg in (cfgs if len(paths) <= 2 else cfgs[:12]):      # record dimension on the pairs
                             yield {"part": "D", "mode": mode, "base": bj, "prep": prep, "hash_each": hash_each,
                                    "paths": [list(p) for p in paths], "cfg": list(cfg)}
         if tier != "quick":
@@ -842,7 +849,7 @@ def gen_D(tier):
                             if len(a) < 2 and len(b) < 2:
                                 continue
                             for mode in ("seg", "spans"):
-                                for cfg in cfgs[4:]:
+                                for cfg in cfgs[4:12]:
                                     yield {"part": "D", "mode": mode, "base": bj, "prep": prep, "hash_each": hash_each,
                                            "paths": [list(a), list(b)], "cfg": list(cfg)}
 
@@ -864,9 +871,10 @@ F_SEGS = [("x", _sd([("bold", True)], fg="color(1)"), False), ("\x1b[2K", None, 
           ("\x1b[1A", _sd([("bold", True)]), True)]
 
 
-def _f_console(system, follow, stream):
+def _f_console(system, follow, stream, record=False):
     from rich.console import Console
-    kw = dict(width=80, height=25, color_system=system, no_color=False, legacy_windows=False, _environ={})
+    kw = dict(width=80, height=25, color_system=system, no_color=False, legacy_windows=False, record=record,
+              _environ={})
     if follow == "file":
         return Console(file=stream, **kw)
     return Console(stderr=(follow == "stderr"), **kw)          # follows sys.stdout / sys.stderr
@@ -896,6 +904,7 @@ def run_case_F(case):
     step what reached the CURRENT target is judged with the clauses of that target; nothing may reach another."""
     import sys
     follow, init, system, ops = case["follow"], case["init"], case["system"], case["ops"]
+    record = bool(case.get("record"))
     attr = "stderr" if follow == "stderr" else "stdout"
     saved = (sys.stdout, sys.stderr)
     problems = []
@@ -911,7 +920,7 @@ def run_case_F(case):
         try:
             std = new(init == "tty")
             setattr(sys, attr, std)
-            console = _f_console(system, follow, std)
+            console = _f_console(system, follow, std, record)
             explicit = std if follow == "file" else None
             for step, op in enumerate(ops):
                 before = [len(f.getvalue()) for f in streams]
@@ -933,7 +942,7 @@ def run_case_F(case):
                     if f is target and op in ("w", "c"):
                         found = _f_judge(op, delta, system, f.tty)
                         if found:
-                            fc = _f_console(system, "file", _Fake(f.tty))
+                            fc = _f_console(system, "file", _Fake(f.tty), record)
                             _f_write(fc, op)
                             fresh_keys = {k for k, _ in _f_judge(op, fc.file.getvalue(), system, f.tty)}
                             for k, d in found:
@@ -955,7 +964,7 @@ def run_case_F(case):
     except Exception as exc:           # noqa: BLE001
         return [(_crash_key(exc), "%s: %s" % (type(exc).__name__, exc))], ("crash",), True
     writes = [o for o in ops if o in ("w", "c")]
-    sig = ("F", follow, init, system, len(ops), ops[-1] if ops else "-", min(n_targets, 3), len(writes))
+    sig = ("F", follow, init, system, record, len(ops), ops[-1] if ops else "-", min(n_targets, 3), len(writes))
     seen = {}
     out = []
     for k, d in problems:
@@ -970,14 +979,261 @@ def gen_F(tier):
     for follow in ("stdout", "stderr", "file"):
         for init in ("tty", "plain"):
             for system in (None, "truecolor"):
-                for n in range(1, maxlen + 1):
-                    for ops in itertools.product(F_OPS, repeat=n):
-                        if ops[-1] not in ("w", "c"):
-                            continue            # a history that ends without a write shows nothing new
-                        yield {"part": "F", "follow": follow, "init": init, "system": system, "ops": list(ops)}
+                for record in (False, True):
+                    for n in range(1, maxlen + 1):
+                        for ops in itertools.product(F_OPS, repeat=n):
+                            if ops[-1] not in ("w", "c"):
+                                continue            # a history that ends without a write shows nothing new
+                            yield {"part": "F", "follow": follow, "init": init, "system": system, "record": record,
+                                   "ops": list(ops)}
 
 
 DICT_RUNNERS = {"D": run_case_D, "F": run_case_F}
+
+# ------------------------------------------------------------------ part TH: two threads, two consoles (E3, vf/sched.py)
+# Each thread prints its own styled segments on its OWN console; the Style objects are fresh per execution
+# (cold Style._ansi memo), every lru cache of rich.style / rich.color / rich.palette is cleared.  Scheduling
+# points: every executed line of rich.style, rich.color and rich.segment ("style" granularity) and
+# additionally every line of rich.console with the bytecodes of Console._check_buffer/_render_buffer
+# ("console" granularity).  All executions with <= bound preemptions are run.  Oracle: each console's
+# stream is judged exactly like the sequential case, and so is a later single-threaded print of the
+# same Style objects (a wrong string must not have been memoised).
+_TA = _sd([("bold", True)], fg="color(1)")
+_TB = _sd([("italic", True), ("underline", True)])
+_TC = _sd([("bold", True)], fg="#ff8700", bg="#010203")
+_TD = _sd([("italic", True)], fg="#808080", bg="color(100)")
+_TE = _sd([("strike", True)], fg="#ff8700", link=LINK)
+TH_HARNESS = {
+    # id: (segments A, cfg A, segments B, cfg B, Style objects shared between the threads, hand-over mode)
+    "attrs-vs-colour": ([("x", _TA, False), ("z", None, False)], ("truecolor", False, True, False),
+                        [("y", _TB, False), ("z", None, False)], ("truecolor", False, True, False), False, "seg"),
+    "downgrade-256-vs-standard": ([("x", _TC, False), ("w", _TB, False), ("z", None, False)], ("256", False, True, False),
+                                  [("y", _TD, False), ("v", _TA, False), ("z", None, False)],
+                                  ("standard", False, True, False), False, "seg"),
+    "same-style-two-systems": ([("x", _TC, False), ("z", None, False)], ("truecolor", False, True, False),
+                               [("y", _TC, False), ("z", None, False)], ("standard", False, True, False), True, "seg"),
+    "same-style-same-system": ([("x", _TC, False), ("z", None, False)], ("256", False, True, False),
+                               [("y", _TC, False), ("z", None, False)], ("256", False, True, False), True, "seg"),
+    "no-color-record-vs-colour": ([("x", _TE, False), ("z", None, False)], ("truecolor", True, True, False, True),
+                                  [("y", _TD, False), ("z", None, False)], ("windows", False, True, False), False, "seg"),
+    "text-definitions": ([("x", _TC, False), ("z", None, False)], ("256", False, True, False),
+                         [("y", _TD, False), ("z", None, False)], ("standard", False, True, False), False, "text"),
+    "text-same-definition": ([("x", _TE, False), ("z", None, False)], ("256", False, True, False),
+                             [("y", _TE, False), ("z", None, False)], ("truecolor", False, True, True), False, "text"),
+}
+TH_ORDER = ("attrs-vs-colour", "downgrade-256-vs-standard", "same-style-two-systems", "same-style-same-system",
+            "no-color-record-vs-colour", "text-definitions", "text-same-definition")
+TH_STOP_AFTER_VIOLATIONS = 8
+
+
+def _th_plan(tier):
+    """(harness, granularity, bound, number of shards)"""
+    out = []
+    for hid in TH_ORDER:
+        out.append((hid, "style", 1, 1))
+        if hid in ("attrs-vs-colour", "same-style-two-systems", "no-color-record-vs-colour"):
+            out.append((hid, "console", 1, 1))
+    if tier != "quick":
+        for hid in TH_ORDER:
+            out.append((hid, "style", 2, 4))
+    return out
+
+
+def _th_setup(gran):
+    """Called in a forked child only: installs the scheduler and chooses the scheduling points."""
+    import sys
+    import rich.color
+    import rich.console
+    import rich.segment
+    import rich.style
+    from .. import sched
+    sched.install()
+    mon = sys.monitoring
+    for name in sched.WHITELIST:              # live / progress / file_proxy never run here; console only on request
+        mod = sys.modules[name]
+        for co in sched._code_objects(mod):
+            if not (gran == "console" and name == "rich.console"):
+                mon.set_local_events(sched.TOOL, co, 0)
+    for mod in (rich.style, rich.color, rich.segment):
+        for co in sched._code_objects(mod):
+            mon.set_local_events(sched.TOOL, co, mon.events.LINE)
+    sched.SKIP_CODES = frozenset()
+
+
+def _th_clear_caches():
+    import rich.color
+    import rich.palette
+    import rich.style
+    for mod in (rich.style, rich.color, rich.palette):
+        for obj in list(vars(mod).values()):
+            if isinstance(obj, type) and obj.__module__ == mod.__name__:
+                for v in vars(obj).values():
+                    f = getattr(v, "__func__", v)
+                    if hasattr(f, "cache_clear"):
+                        f.cache_clear()
+
+
+def _th_make(hid):
+    segs_a, cfg_a, segs_b, cfg_b, shared, mode = TH_HARNESS[hid]
+
+    def make(s):
+        from rich.segment import Segment
+        from rich.text import Text
+        _th_clear_caches()
+        objs_a = {sd: build_style(sd) for _, sd, _ in segs_a if sd is not None}
+        objs_b = objs_a if shared else {}
+        for _, sd, _ in segs_b:
+            if sd is not None and sd not in objs_b:
+                objs_b[sd] = build_style(sd)
+        cons = {"A": make_console(cfg_a), "B": make_console(cfg_b)}
+
+        def renderable(segs, objs):
+            if mode == "text":
+                return Text.assemble(*[t if sd is None else (t, definition(sd)) for t, sd, _ in segs], end="")
+            return _Segs([Segment(t, None if sd is None else objs[sd], ctl) for t, sd, ctl in segs])
+
+        ra, rb = renderable(segs_a, objs_a), renderable(segs_b, objs_b)
+
+        def A():
+            cons["A"].print(ra, end="")
+
+        def B():
+            cons["B"].print(rb, end="")
+
+        def finish():
+            later = {}
+            for tid, segs, objs, cfg in (("A", segs_a, objs_a, cfg_a), ("B", segs_b, objs_b, cfg_b)):
+                try:
+                    c = make_console(cfg)
+                    c.print(renderable(segs, objs), end="")
+                    later[tid] = c.file.getvalue()
+                except Exception as e:          # noqa: BLE001
+                    later[tid] = e
+            return {"out": {t: c.file.getvalue() for t, c in cons.items()}, "later": later}
+        return {"A": A, "B": B}, finish
+    return make
+
+
+def _th_judge(hid, s, obs):
+    """-> (signature, [(key, detail)])"""
+    segs_a, cfg_a, segs_b, cfg_b, shared, mode = TH_HARNESS[hid]
+    vio = []
+    if s.problem:
+        vio.append(("threads/%s" % s.problem.split(":")[0], s.problem))
+    for tid, e in s.errors:
+        vio.append(("threads/exception/%s" % type(e).__name__, "thread %s raised %r" % (tid, e)))
+    jm = "text" if mode == "text" else "seg"
+    own = "shared-objects" if shared else "own-objects"      # whose state can be raced: the objects' or the classes'
+
+    def grp(k):
+        return own + "/" + ("style/colour" if k in ("style/fg", "style/bg") else k)
+    for tid, segs, cfg in (("A", segs_a, cfg_a), ("B", segs_b, cfg_b)):
+        if not s.problem and not any(t == tid for t, _ in s.errors):
+            for k, d in judge(obs["out"][tid], jm, segs, None, cfg):
+                vio.append(("threads/" + grp(k), "thread %s on its own %s console: %s" % (tid, cfg[0], d)))
+        lat = obs["later"][tid]
+        if isinstance(lat, Exception):
+            vio.append(("threads/later-exception/%s" % type(lat).__name__, "printing %s's styles again: %r" % (tid, lat)))
+        else:
+            for k, d in judge(lat, jm, segs, None, cfg):
+                vio.append(("threads/memoised/" + grp(k), "the same Style objects printed again by one thread after the two "
+                            "threads finished (%s console): %s" % (cfg[0], d)))
+    seen, out = set(), []
+    for k, d in vio:
+        if k not in seen:
+            seen.add(k)
+            out.append((k, d))
+    dev = s.deviations_before(len(s.choices))
+    return ("TH", hid, min(dev, 3), len(s.choices) // 50, bool(out)), out
+
+
+def _in_child(fn):
+    """runs fn() in a forked child (the scheduler's monkey-patching and monitoring never touch the worker)"""
+    import os
+    import pickle
+    import traceback
+    from ..par import MachineryError
+    r, w = os.pipe()
+    pid = os.fork()
+    if pid == 0:
+        try:
+            os.close(r)
+            try:
+                data = pickle.dumps(("ok", fn()))
+            except BaseException:           # noqa: BLE001
+                data = pickle.dumps(("err", traceback.format_exc()))
+            with os.fdopen(w, "wb") as f:
+                f.write(data)
+        finally:
+            os._exit(0)
+    os.close(w)
+    with os.fdopen(r, "rb") as f:
+        data = f.read()
+    os.waitpid(pid, 0)
+    st, out = pickle.loads(data) if data else ("err", "child process died without an answer")
+    if st != "ok":
+        raise MachineryError("child failed: %s" % out)
+    return out
+
+
+def _th_explore(sh):
+    """child side of one TH shard -> plain data"""
+    from .. import sched
+    hid, gran, bound = sh["h"], sh["gran"], sh["bound"]
+    _th_setup(gran)
+    recs = []
+    bad = [0]
+
+    def judge_exec(s, obs):
+        sig, vio = _th_judge(hid, s, obs)
+        ch = list(s.choices)
+        while ch and ch[-1] == 0:
+            ch.pop()
+        if vio:
+            # a counterexample must reproduce identically before it is reported
+            s2, obs2 = sched.run_once(_th_make(hid), ch, "line", 0)
+            _sig2, vio2 = _th_judge(hid, s2, obs2)
+            if [k for k, _ in vio2] != [k for k, _ in vio]:
+                raise RuntimeError("schedule not reproducible: %r then %r (choices %r)" % (vio, vio2, ch))
+            bad[0] += 1
+        recs.append((sig, vio, ch, len(s.choices)))
+
+    st = sched.explore(_th_make(hid), bound, judge_exec, granularity="line", timeout_budget=0,
+                       first_level=(sh["i"], sh["n"]),
+                       stop=lambda: deadline_passed() or bad[0] >= TH_STOP_AFTER_VIOLATIONS)
+    return {"recs": recs, "stats": st, "stopped_on_violations": bad[0] >= TH_STOP_AFTER_VIOLATIONS}
+
+
+def _part_TH(sh, res):
+    out = _in_child(lambda: _th_explore(sh))
+    hid, gran, bound = sh["h"], sh["gran"], sh["bound"]
+    for sig, vio, ch, ncp in out["recs"]:
+        res.evaluations += 4                # two concurrent writes + two later writes, all judged
+        res.sig(sig + (gran,), nontrivial=sig[2] > 0)
+        res.counters["max_choice_points_per_schedule"] = max(res.counters.get("max_choice_points_per_schedule", 0), ncp)
+        for key, detail in vio:
+            res.violate(key, {"part": "TH", "h": hid, "gran": gran, "choices": ch}, detail)
+    res.count("schedules", out["stats"]["executions"])
+    res.count("cases_TH", 4 * len(out["recs"]))
+    if out["stats"]["complete"]:
+        if sh["i"] == 0:
+            res.count("threads_complete:%s:%s:b%d" % (hid, gran, bound))
+    elif out["stopped_on_violations"]:
+        res.count("threads_stopped_after_counterexamples:%s:%s:b%d" % (hid, gran, bound))
+    else:
+        res.capped = True
+    if sh["i"] == 0 and hid == TH_ORDER[0]:
+        res.sample({"part": "TH", "harness": hid, "granularity": gran, "bound": bound}, limit=1)
+
+
+def _replay_TH(case):
+    def child():
+        from .. import sched
+        _th_setup(case.get("gran", "style"))
+        s, obs = sched.run_once(_th_make(case["h"]), list(case["choices"]), "line", 0)
+        return _th_judge(case["h"], s, obs)[1]
+    return _in_child(child)
+
 
 GENS = {"S": gen_S, "SH": gen_SH, "SH2": gen_SH2, "Q": gen_Q, "QH": gen_QH, "T": gen_T,
         "D": gen_D, "F": gen_F}
@@ -987,6 +1243,9 @@ def plan(tier, seed):
     n = {"quick": {"S": 8, "SH": 10, "SH2": 4, "Q": 16, "QH": 4, "T": 2, "D": 4, "F": 2},
          "thorough": {"S": 24, "SH": 32, "SH2": 8, "Q": 96, "QH": 4, "T": 4, "D": 24, "F": 4}}[tier]
     shards = []
+    # the thread shards first: they are the longest single shards
+    for hid, gran, bound, k in _th_plan(tier):
+        shards += [{"part": "TH", "h": hid, "gran": gran, "bound": bound, "i": i, "n": k} for i in range(k)]
     for part in ("S", "SH", "SH2", "Q", "QH", "T", "D", "F"):
         shards += [{"part": part, "i": i, "n": n[part]} for i in range(n[part])]
     return shards
@@ -994,6 +1253,9 @@ def plan(tier, seed):
 
 def run_shard(sh, tier, seed):
     res = Result()
+    if sh["part"] == "TH":
+        _part_TH(sh, res)
+        return res
     i, n = sh["i"], sh["n"]
     for idx, c in enumerate(GENS[sh["part"]](tier)):
         if idx % n != i:
@@ -1058,6 +1320,8 @@ def describe(tier, seed, res):
 
 
 def replay(case):
+    if case.get("part") == "TH":
+        return _replay_TH(case)
     if case.get("part") in DICT_RUNNERS:
         return [(k, d) for k, d in DICT_RUNNERS[case["part"]](case)[0]]
     mode, segs, spans, hist, cfg, how, derive = _norm(case)
